@@ -909,8 +909,81 @@ def _relpath(target, base):
     return os.path.relpath(str(target), str(base))
 
 
+def enumerate_cases(tier):
+    """large-index chains: index maps whose entries are large compared with the
+    differences between two maps (origin with 3e5 scalar events, a first export
+    that drops a few early events, a nested export of late events only)"""
+    out = []
+    for n, drop, late, sparse in ((300000, 1, 1500, False), (300000, 2, 700, False),
+                                  (250000, 2, 40, True)):
+        out.append({"kind": "bigindex", "n": n, "drop": drop, "late": late,
+                    "sparse": sparse})
+    return out
+
+
+def _run_bigindex(spec, rec, d):
+    import dclab
+    from dclab import RTDCWriter
+    from ..common import meta
+    n, drop, late = spec["n"], spec["drop"], spec["late"]
+    rec.cls("bigindex-chain")
+    rec.nontrivial()
+    area = np.arange(n, dtype=float) * 0.5 + 7
+    deform = np.arange(n, dtype=float) % 977
+    p0 = d / "origin.rtdc"
+    with RTDCWriter(p0) as hw:
+        hw.store_metadata(meta())
+        hw.store_feature("deform", deform)
+        hw.store_feature("area_um", area)
+    # level 1: drops `drop` early events (and every 1000th event)
+    keep1 = np.ones(n, dtype=bool)
+    keep1[:drop] = False
+    if spec.get("sparse"):
+        keep1[::1000] = False
+    p1 = d / "level1.rtdc"
+    with dclab.new_dataset(p0) as ds:
+        ds.filter.manual[:] = keep1
+        ds.apply_filter()
+        ds.export.hdf5(p1, features=["deform"], filtered=True, basins=True)
+    map1 = np.flatnonzero(keep1)
+    # level 2: only late events of level 1
+    n1 = len(map1)
+    keep2 = np.zeros(n1, dtype=bool)
+    keep2[n1 - late:] = True
+    keep2[n1 - late + 1::7] = False
+    p2 = d / "level2.rtdc"
+    with dclab.new_dataset(p1) as ds:
+        rec.check(len(ds) == n1 and np.array_equal(ds["area_um"][:], area[map1]),
+                  sg("value", "scalar", "mapped", "bigindex-level1"),
+                  "level-1 export: basin feature differs from origin[map]")
+        ds.filter.manual[:] = keep2
+        ds.apply_filter()
+        ds.export.hdf5(p2, features=["deform"], filtered=True, basins=True)
+    map2 = map1[np.flatnonzero(keep2)]
+    with dclab.new_dataset(p2) as ds:
+        rec.check(len(ds) == len(map2), sg("len", "scalar", "mapped", "bigindex"),
+                  f"{len(ds)} events, expected {len(map2)}")
+        rec.check(np.array_equal(ds["deform"][:], deform[map2]),
+                  sg("value", "scalar", "own", "bigindex"), "stored feature wrong")
+        for acc, nm in ((slice(None), "full"), (slice(3, None, 5), "slice")):
+            got = np.asarray(ds["area_um"][acc])
+            rec.check(np.array_equal(got, area[map2][acc]),
+                      sg("value", "scalar", "mapped", "bigindex-" + nm),
+                      lambda: f"area_um through the basin chain: first wrong event "
+                              f"{int(np.flatnonzero(got != area[map2][acc])[0]) if got.shape == area[map2][acc].shape else 'shape'}")
+        rec.check(float(ds["area_um"][0]) == float(area[map2][0]),
+                  sg("value", "scalar", "mapped", "bigindex-int"), "")
+
+
 def run_case(spec, rec):
     d = boot.casedir()
+    if spec.get("kind") == "bigindex":
+        try:
+            with quiet():
+                _run_bigindex(spec, rec, d)
+        finally:
+            boot.rmcase(d)
+        return
     try:
         with chunk_bytes(spec["chunk"]), quiet():
             run = Run(spec, rec, d)
